@@ -4,3 +4,5 @@ pub mod state;
 pub mod expr;
 pub mod column;
 pub mod codepage;
+pub mod medium;
+pub mod package;
